@@ -35,6 +35,9 @@ type Job struct {
 	Known     []Known  `json:"known"`
 	Indices   []int    `json:"indices"` // determinism: run exactly these indices
 	Samples   int      `json:"samples"`
+	// replay: how many of the file's history plans (counted from the end) are executed before the plan;
+	// negative = all of them
+	HistoryLen int `json:"history_len"`
 }
 
 // Known is an open known finding.
@@ -56,6 +59,11 @@ type ReplayFile struct {
 		BaseSeed uint64 `json:"base_seed"`
 		Index    int    `json:"index"`
 	} `json:"found_at"`
+	// History: plans the same process executed before this one, oldest first. Empty unless the violation did
+	// not reproduce from the plan alone in a fresh process, that is, unless the code under test carries state
+	// from one call sequence to the next inside the process (a package-level cache or pool); the driver keeps
+	// the shortest suffix that reproduces. A replay executes them, in order, before the plan.
+	History []*core.Plan `json:"history,omitempty"`
 }
 
 type rec map[string]any
@@ -167,6 +175,13 @@ func explore(t *testing.T, l core.Lens, job *Job, emit func(rec)) {
 	start := time.Now()
 	deadline := start.Add(time.Duration(job.BudgetS * float64(time.Second)))
 	found := map[string]bool{}
+	var recent []*core.Plan // the last plans this process executed, oldest first
+	remember := func(p *core.Plan) {
+		recent = append(recent, p)
+		if len(recent) > 16 {
+			recent = recent[1:]
+		}
+	}
 	handle := func(plan *core.Plan, res *core.Result, idx int) {
 		for _, v := range res.Violations {
 			if len(v.Class) > 8 && v.Class[:8] == "HARNESS/" {
@@ -201,6 +216,10 @@ func explore(t *testing.T, l core.Lens, job *Job, emit func(rec)) {
 			}
 			rf := ReplayFile{Plan: min, Violation: mv, EventHash: fmt.Sprintf("%016x", mres.Hash), Minimised: minimised, ShrinkRuns: runs}
 			rf.FoundAt.BaseSeed, rf.FoundAt.Index = job.BaseSeed, idx
+			rf.History = append(rf.History, recent...)
+			if minimised {
+				rf.History = append(rf.History, plan) // the shrinker's runs started from it
+			}
 			suffix := sanitize(v.Class)
 			if dk != v.Class {
 				suffix += fmt.Sprintf("-%08x", uint32(hashBytes([]byte(v.Key))))
@@ -231,6 +250,7 @@ func explore(t *testing.T, l core.Lens, job *Job, emit func(rec)) {
 			st.add(res, false)
 			st.Extra["corpus_plans"]++
 			handle(rf.Plan, res, -1)
+			remember(rf.Plan)
 		}
 	}
 	for idx := job.Worker; ; idx += job.Workers {
@@ -247,6 +267,7 @@ func explore(t *testing.T, l core.Lens, job *Job, emit func(rec)) {
 		res := core.RunPlan(t, l, plan, false)
 		st.add(res, len(st.Samples) < job.Samples)
 		handle(plan, res, idx)
+		remember(plan)
 		// determinism sample: re-execute 1 in 64 and compare fingerprints and verdicts
 		if st.Runs%64 == 1 {
 			res2 := core.RunPlan(t, l, plan, false)
@@ -309,6 +330,13 @@ func replay(t *testing.T, l core.Lens, job *Job, emit func(rec)) {
 		emit(rec{"type": "harness", "class": "HARNESS/replay-parse", "detail": fmt.Sprint(err)})
 		return
 	}
+	hist := rf.History
+	if job.HistoryLen >= 0 && job.HistoryLen < len(hist) {
+		hist = hist[len(hist)-job.HistoryLen:]
+	}
+	for _, hp := range hist {
+		core.RunPlan(t, l, hp, false)
+	}
 	res := core.RunPlan(t, l, rf.Plan, true)
 	reproduced := false
 	var classes []string
@@ -325,7 +353,7 @@ func replay(t *testing.T, l core.Lens, job *Job, emit func(rec)) {
 		}
 	}
 	emit(rec{"type": "replay", "reproduced": reproduced, "expected_class": rf.Violation.Class, "classes": classes,
-		"event_hash": fmt.Sprintf("%016x", res.Hash), "expected_hash": rf.EventHash, "events": res.Events})
+		"event_hash": fmt.Sprintf("%016x", res.Hash), "expected_hash": rf.EventHash, "events": res.Events, "history_executed": len(hist)})
 }
 
 func determinism(t *testing.T, l core.Lens, job *Job, emit func(rec)) {
